@@ -169,119 +169,171 @@ theorem mapObjs_pure_isOk (fl : Object → M Object) :
         · intro _; exact ⟨_, rfl⟩
 end
 
-/-- Kleisli composition of two per-object callbacks. -/
-def andThen (f g : Object → M Object) (o : Object) : M Object :=
-  match f o with
-  | .error e => .error e
-  | .ok o1 => g o1
-
-/-- A callback that maps non-block objects to non-block objects. -/
-def KeepsLeaves (f : Object → M Object) : Prop :=
-  ∀ o o', f o = .ok o' → (∀ h os, o ≠ .block h os) → (∀ h os, o' ≠ .block h os)
-
-/- Two consecutive passes succeed iff the fused pass does (and then give the same tree). -/
+/- The pure tree map: block heads untouched, every other object through `g`. -/
 mutual
-theorem mapObj_fuse (f g : Object → M Object) (hf : KeepsLeaves f) :
-    ∀ (o : Object),
-      (match mapObj (fun h => .ok h) f o with
-       | .error e => (.error e : M Object)
-       | .ok o1 => mapObj (fun h => .ok h) g o1) = mapObj (fun h => .ok h) (andThen f g) o ∨
-      (¬ isOk (match mapObj (fun h => .ok h) f o with
-               | .error e => (.error e : M Object)
-               | .ok o1 => mapObj (fun h => .ok h) g o1) ∧
-       ¬ isOk (mapObj (fun h => .ok h) (andThen f g) o))
+def treeMapObj (g : Object → Object) : Object → Object
+  | .block h os => .block h (treeMap g os)
+  | .register r => g (.register r)
+  | .command c => g (.command c)
+  | .buffer b => g (.buffer b)
+  | .ref r => g (.ref r)
+def treeMap (g : Object → Object) : List Object → List Object
+  | [] => []
+  | o :: os => treeMapObj g o :: treeMap g os
+end
+
+/- If a successful callback always returns `g o`, a successful pass returns the tree map. -/
+mutual
+theorem mapObj_pure_eq_treeMap (fl : Object → M Object) (g : Object → Object)
+    (hg : ∀ o o', fl o = .ok o' → o' = g o) :
+    ∀ (o o' : Object), mapObj (fun h => .ok h) fl o = .ok o' → o' = treeMapObj g o
+  | .block h os, o' => by
+    unfold mapObj treeMapObj
+    simp only
+    cases hv : mapObjs (fun h => .ok h) fl os with
+    | error e => intro h; cases h
+    | ok os1 =>
+      intro h
+      have := mapObjs_pure_eq_treeMap fl g hg os os1 hv
+      rw [← this]; exact (Except.ok.inj h).symm
+  | .register r, o' => by unfold mapObj treeMapObj; exact hg _ _
+  | .command c, o' => by unfold mapObj treeMapObj; exact hg _ _
+  | .buffer b, o' => by unfold mapObj treeMapObj; exact hg _ _
+  | .ref r, o' => by unfold mapObj treeMapObj; exact hg _ _
+theorem mapObjs_pure_eq_treeMap (fl : Object → M Object) (g : Object → Object)
+    (hg : ∀ o o', fl o = .ok o' → o' = g o) :
+    ∀ (os os' : List Object), mapObjs (fun h => .ok h) fl os = .ok os' → os' = treeMap g os
+  | [], os' => by unfold mapObjs treeMap; intro h; exact (Except.ok.inj h).symm
+  | o :: os, os' => by
+    unfold mapObjs treeMap
+    cases hv : mapObj (fun h => .ok h) fl o with
+    | error e => intro h; cases h
+    | ok o1 =>
+      simp only
+      cases hl : mapObjs (fun h => .ok h) fl os with
+      | error e => intro h; cases h
+      | ok os1 =>
+        intro h
+        rw [← mapObj_pure_eq_treeMap fl g hg o o1 hv, ← mapObjs_pure_eq_treeMap fl g hg os os1 hl]
+        exact (Except.ok.inj h).symm
+end
+
+/- `AllLeaves` through a tree map that keeps non-blocks non-blocks. -/
+def LeafToLeaf (g : Object → Object) : Prop :=
+  ∀ o, (∀ h os, o ≠ .block h os) → (∀ h os, g o ≠ .block h os)
+
+theorem allLeavesObj_of_leaf (p : Object → Prop) (o : Object) (h : ∀ hd os, o ≠ .block hd os) :
+    AllLeavesObj p o ↔ p o := by
+  cases o with
+  | block hd os => exact absurd rfl (h hd os)
+  | _ => unfold AllLeavesObj; exact Iff.rfl
+
+mutual
+theorem allLeavesObj_treeMap (p : Object → Prop) (g : Object → Object) (hg : LeafToLeaf g) :
+    ∀ (o : Object), AllLeavesObj p (treeMapObj g o) ↔ AllLeavesObj (fun x => p (g x)) o
   | .block h os => by
-    have ih := mapObjs_fuse f g hf os
+    unfold treeMapObj AllLeavesObj
+    exact allLeaves_treeMap p g hg os
+  | .register r => by
+    unfold treeMapObj
+    rw [allLeavesObj_of_leaf p _ (hg _ (by intro _ _ h; cases h))]
+    unfold AllLeavesObj; exact Iff.rfl
+  | .command c => by
+    unfold treeMapObj
+    rw [allLeavesObj_of_leaf p _ (hg _ (by intro _ _ h; cases h))]
+    unfold AllLeavesObj; exact Iff.rfl
+  | .buffer b => by
+    unfold treeMapObj
+    rw [allLeavesObj_of_leaf p _ (hg _ (by intro _ _ h; cases h))]
+    unfold AllLeavesObj; exact Iff.rfl
+  | .ref r => by
+    unfold treeMapObj
+    rw [allLeavesObj_of_leaf p _ (hg _ (by intro _ _ h; cases h))]
+    unfold AllLeavesObj; exact Iff.rfl
+theorem allLeaves_treeMap (p : Object → Prop) (g : Object → Object) (hg : LeafToLeaf g) :
+    ∀ (os : List Object), AllLeaves p (treeMap g os) ↔ AllLeaves (fun x => p (g x)) os
+  | [] => by unfold treeMap AllLeaves; exact Iff.rfl
+  | o :: os => by
+    unfold treeMap AllLeaves
+    rw [allLeavesObj_treeMap p g hg o, allLeaves_treeMap p g hg os]
+end
+
+/- `AllLeaves` is monotone / congruent. -/
+mutual
+theorem allLeavesObj_congr (p q : Object → Prop) (h : ∀ o, p o ↔ q o) :
+    ∀ (o : Object), AllLeavesObj p o ↔ AllLeavesObj q o
+  | .block hd os => by unfold AllLeavesObj; exact allLeaves_congr p q h os
+  | .register r => by unfold AllLeavesObj; exact h _
+  | .command c => by unfold AllLeavesObj; exact h _
+  | .buffer b => by unfold AllLeavesObj; exact h _
+  | .ref r => by unfold AllLeavesObj; exact h _
+theorem allLeaves_congr (p q : Object → Prop) (h : ∀ o, p o ↔ q o) :
+    ∀ (os : List Object), AllLeaves p os ↔ AllLeaves q os
+  | [] => by unfold AllLeaves; exact Iff.rfl
+  | o :: os => by
+    unfold AllLeaves
+    rw [allLeavesObj_congr p q h o, allLeaves_congr p q h os]
+end
+
+mutual
+theorem allLeavesObj_and (p q : Object → Prop) :
+    ∀ (o : Object), AllLeavesObj (fun x => p x ∧ q x) o ↔ AllLeavesObj p o ∧ AllLeavesObj q o
+  | .block hd os => by unfold AllLeavesObj; exact allLeaves_and p q os
+  | .register r => by unfold AllLeavesObj; exact Iff.rfl
+  | .command c => by unfold AllLeavesObj; exact Iff.rfl
+  | .buffer b => by unfold AllLeavesObj; exact Iff.rfl
+  | .ref r => by unfold AllLeavesObj; exact Iff.rfl
+theorem allLeaves_and (p q : Object → Prop) :
+    ∀ (os : List Object), AllLeaves (fun x => p x ∧ q x) os ↔ AllLeaves p os ∧ AllLeaves q os
+  | [] => by unfold AllLeaves; exact ⟨fun _ => ⟨trivial, trivial⟩, fun _ => trivial⟩
+  | o :: os => by
+    unfold AllLeaves
+    rw [allLeavesObj_and p q o, allLeaves_and p q os]
+    constructor
+    · intro ⟨⟨a, b⟩, ⟨c, d⟩⟩; exact ⟨⟨a, c⟩, ⟨b, d⟩⟩
+    · intro ⟨⟨a, c⟩, ⟨b, d⟩⟩; exact ⟨⟨a, b⟩, ⟨c, d⟩⟩
+end
+
+end DDV.Gen
+
+namespace DDV.Gen
+set_option linter.unusedVariables false
+
+/-- The computation can only stop with a *reported error*, never with a panic or abort. -/
+def OnlyErrors {α : Type} (m : M α) : Prop := ∀ s, m = .error s → ∃ e, s = Stop.error e
+
+mutual
+theorem mapObj_onlyErrors (fl : Object → M Object) (h : ∀ o, OnlyErrors (fl o)) :
+    ∀ (o : Object), OnlyErrors (mapObj (fun h => .ok h) fl o)
+  | .block hd os => by
     unfold mapObj
     simp only
-    cases hv : mapObjs (fun h => .ok h) f os with
-    | error e =>
-      rw [hv] at ih
-      simp only at ih ⊢
-      rcases ih with ih | ih
-      · left; rw [← ih]
-      · right
-        refine ⟨fun ⟨a, ha⟩ => by cases ha, ?_⟩
-        intro ⟨a, ha⟩
-        cases h2 : mapObjs (fun h => .ok h) (andThen f g) os with
-        | error e2 => rw [h2] at ha; cases ha
-        | ok x => exact ih.2 ⟨x, h2⟩
-    | ok os1 =>
-      rw [hv] at ih
-      simp only at ih ⊢
-      unfold mapObj
-      simp only
-      rcases ih with ih | ih
-      · left; rw [ih]
-      · right
-        constructor
-        · intro ⟨a, ha⟩
-          cases h2 : mapObjs (fun h => .ok h) g os1 with
-          | error e2 => rw [h2] at ha; cases ha
-          | ok x => exact ih.1 ⟨x, h2⟩
-        · intro ⟨a, ha⟩
-          cases h2 : mapObjs (fun h => .ok h) (andThen f g) os with
-          | error e2 => rw [h2] at ha; cases ha
-          | ok x => exact ih.2 ⟨x, h2⟩
-  | .register r => by
-    unfold mapObj andThen
-    cases h : f (.register r) with
-    | error e => left; rfl
-    | ok o1 =>
-      simp only
-      have := hf _ _ h (by intro _ _ hh; cases hh)
-      left
-      cases o1 with
-      | block h os => exact absurd rfl (this h os)
-      | _ => unfold mapObj; rfl
-  | .command c => by
-    unfold mapObj andThen
-    cases h : f (.command c) with
-    | error e => left; rfl
-    | ok o1 =>
-      simp only
-      have := hf _ _ h (by intro _ _ hh; cases hh)
-      left
-      cases o1 with
-      | block h os => exact absurd rfl (this h os)
-      | _ => unfold mapObj; rfl
-  | .buffer b => by
-    unfold mapObj andThen
-    cases h : f (.buffer b) with
-    | error e => left; rfl
-    | ok o1 =>
-      simp only
-      have := hf _ _ h (by intro _ _ hh; cases hh)
-      left
-      cases o1 with
-      | block h os => exact absurd rfl (this h os)
-      | _ => unfold mapObj; rfl
-  | .ref r => by
-    unfold mapObj andThen
-    cases h : f (.ref r) with
-    | error e => left; rfl
-    | ok o1 =>
-      simp only
-      have := hf _ _ h (by intro _ _ hh; cases hh)
-      left
-      cases o1 with
-      | block h os => exact absurd rfl (this h os)
-      | _ => unfold mapObj; rfl
-
-theorem mapObjs_fuse (f g : Object → M Object) (hf : KeepsLeaves f) :
-    ∀ (os : List Object),
-      (match mapObjs (fun h => .ok h) f os with
-       | .error e => (.error e : M (List Object))
-       | .ok os1 => mapObjs (fun h => .ok h) g os1) = mapObjs (fun h => .ok h) (andThen f g) os ∨
-      (¬ isOk (match mapObjs (fun h => .ok h) f os with
-               | .error e => (.error e : M (List Object))
-               | .ok os1 => mapObjs (fun h => .ok h) g os1) ∧
-       ¬ isOk (mapObjs (fun h => .ok h) (andThen f g) os))
-  | [] => by left; unfold mapObjs; simp only; unfold mapObjs; rfl
+    intro s hs
+    cases hv : mapObjs (fun h => .ok h) fl os with
+    | error e => rw [hv] at hs; exact mapObjs_onlyErrors fl h os s (by rw [hv]; exact congrArg _ (Except.error.inj hs))
+    | ok x => rw [hv] at hs; cases hs
+  | .register r => by unfold mapObj; exact h _
+  | .command c => by unfold mapObj; exact h _
+  | .buffer b => by unfold mapObj; exact h _
+  | .ref r => by unfold mapObj; exact h _
+theorem mapObjs_onlyErrors (fl : Object → M Object) (h : ∀ o, OnlyErrors (fl o)) :
+    ∀ (os : List Object), OnlyErrors (mapObjs (fun h => .ok h) fl os)
+  | [] => by unfold mapObjs; intro s hs; cases hs
   | o :: os => by
-    have h1 := mapObj_fuse f g hf o
-    have h2 := mapObjs_fuse f g hf os
-    sorry
+    unfold mapObjs
+    intro s hs
+    cases hv : mapObj (fun h => .ok h) fl o with
+    | error e =>
+      rw [hv] at hs
+      exact mapObj_onlyErrors fl h o s (by rw [hv]; exact congrArg _ (Except.error.inj hs))
+    | ok o1 =>
+      rw [hv] at hs
+      simp only at hs
+      cases hl : mapObjs (fun h => .ok h) fl os with
+      | error e =>
+        rw [hl] at hs
+        exact mapObjs_onlyErrors fl h os s (by rw [hl]; exact congrArg _ (Except.error.inj hs))
+      | ok x => rw [hl] at hs; cases hs
 end
 
 end DDV.Gen
